@@ -60,7 +60,8 @@ def run_case(case):
         raise Violation('session failed with %s: %s at broker time %s' % r.error)
     d0, d1 = cal.date3(cfg['start']), cal.date3(cfg['end'])
     burn = None if cfg.get('burn_in') is None else cal.ts6(cfg['burn_in'])
-    clock = set(t for t, _ in cal.clock_events(d0, d1, False, False))
+    extra = bool(cfg.get('extra_clock_events'))
+    clock = set(t for t, _ in cal.clock_events(d0, d1, extra, extra))
     # the scheduled instants of the configured rebalance kind, from the independent calendar (the documented
     # schedules: C13 states them; a session that derives a different schedule does not run "at exactly those
     # scheduled instants")
@@ -189,6 +190,9 @@ def cases(draw):
             draw, cfg, mk, names, d0, (d1 - d0).days, draw(st.integers(0, 10 ** 6))):
         # the session is given signals that also watch a symbol whose file starts a few days in
         lab = lab + ['signals_watching_a_symbol_without_quotes_at_first']
+    if draw(st.sampled_from([False, False, False, True])):
+        cfg['extra_clock_events'] = True
+        lab = lab + ['clock_with_pre_and_post_market_events']
     return {'cfg': cfg, 'market': mk, 'labels': lab,
             'reserve': draw(st.sampled_from([None, None, None, 250000.0, 0.5])),
             'preflight': draw(st.sampled_from([False, False, True]))}
